@@ -44,6 +44,8 @@ pub enum Case {
     Basis2 { ang: f64, len: f64, origin: P2 },
     PlaneTriple { p: P3, q: P3, r: P3, x: P3 },
     PlaneNormal { n: P3, p: P3, x: P3, spn: P3 },
+    /// a triangle of the given size (corners centre + size*a, ...) anywhere up to 1e7 sizes from the origin
+    PlaneFar { centre: P3, size: f64, a: P3, b: P3, c: P3 },
 }
 
 fn one() -> F {
@@ -68,13 +70,13 @@ impl Property for C19 {
     type Case = Case;
     const ID: &'static str = "C19";
     fn rule() -> &'static str {
-        "families: point sets of D+1..120 points built from a known basis (generic, exactly planar / collinear / coincident by zeroing stretches, anisotropic up to 1e6, offset up to 1e3 from the origin) with no weights, equal weights c in {0.5,1,2,7} or non-uniform positive weights (max/min up to 100), plus a second isometry for equivariance and a weight scale factor; vector pairs of any length 1e-3..1e3 at angles 1e-6..pi-1e-6, exactly parallel, zero, with optional origin, for the six two-vector frame constructors, iso3_from_xyo, iso3_from_basis, iso2_from_basis; planes from point triples in general position, from point+normal and from surface points. Oracle: defining constraints (mean, orthonormality, ordering, variance, diagonalised scatter, round trip, rank, equivariance, weight-scale invariance; proper rotation with the primary axis exact and the secondary in the right half-plane; points on plane, projection, inversion). Non-trivial: basis not axis-aligned and centre away from the origin (SVD), non-trivial weights, frame inputs farther than 5 degrees from perpendicular. Distinct = distinct canonical JSON."
+        "families: point sets of D+1..120 points built from a known basis (generic, exactly planar / collinear / coincident by zeroing stretches, anisotropic up to 1e6, offset up to 1e3 from the origin) with no weights, equal weights c in {0.5,1,2,7} or non-uniform positive weights (max/min up to 100), plus a second isometry for equivariance and a weight scale factor; vector pairs of any length 1e-3..1e3 at angles 1e-6..pi-1e-6, exactly parallel, zero, with optional origin, for the six two-vector frame constructors, iso3_from_xyo, iso3_from_basis, iso2_from_basis; planes from point triples in general position (coordinates up to 100, and triangles of size 1e-3..1e3 placed up to 1e7 sizes from the origin), from point+normal and from surface points. Oracle: defining constraints (mean, orthonormality, ordering, variance, diagonalised scatter, round trip, rank, equivariance, weight-scale invariance; proper rotation with the primary axis exact and the secondary in the right half-plane; points on plane, projection, inversion). Non-trivial: basis not axis-aligned and centre away from the origin (SVD), non-trivial weights, frame inputs farther than 5 degrees from perpendicular. Distinct = distinct canonical JSON."
     }
     fn cases(t: Tier) -> u32 {
         t.pick(1_600_000, 10_000_000)
     }
     fn expected_labels() -> Vec<&'static str> {
-        vec!["svd3", "svd2", "weights_none", "weights_equal", "weights_nonuniform", "rank_deficient", "frame_xy", "frame_xz", "frame_yz", "frame_yx", "frame_zx", "frame_zy", "frame_degenerate", "xyo", "basis2", "plane_triple", "plane_normal", "equivariance_checked"]
+        vec!["svd3", "svd2", "weights_none", "weights_equal", "weights_nonuniform", "rank_deficient", "frame_xy", "frame_xz", "frame_yz", "frame_yx", "frame_zx", "frame_zy", "frame_degenerate", "xyo", "basis2", "plane_triple", "plane_normal", "plane_far", "plane_far_1e4_sizes_away", "equivariance_checked"]
     }
     fn strategy(_t: Tier) -> BoxedStrategy<Case> {
         let stretch3 = prop_oneof![4 => (logu(-1.0, 1.0), logu(-1.0, 1.0), logu(-1.0, 1.0)).prop_map(|(a, b, c)| [a, b, c]), 1 => (logu(-3.0, 3.0), logu(-3.0, 3.0), logu(-3.0, 3.0)).prop_map(|(a, b, c)| [a, b, c]), 2 => (logu(-1.0, 1.0), logu(-1.0, 1.0), prop::sample::select(vec![0u8, 1, 2, 3])).prop_map(|(a, b, z)| match z { 0 => [a, b, 0.0], 1 => [a, 0.0, 0.0], 2 => [0.0, 0.0, 0.0], _ => [0.0, b, a] })];
@@ -91,6 +93,7 @@ impl Property for C19 {
             1 => (prop_oneof![4 => unif(-3.2, 3.2), 1 => prop::sample::select(vec![std::f64::consts::PI, -std::f64::consts::PI, 0.0, std::f64::consts::FRAC_PI_2, 3.1415, -3.14159])], logu(-3.0, 3.0), p2(1000.0)).prop_map(|(ang, len, origin)| Case::Basis2 { ang, len, origin }),
             2 => (p3(100.0), p3(100.0), p3(100.0), p3(100.0)).prop_map(|(p, q, r, x)| Case::PlaneTriple { p, q, r, x }),
             2 => (unit3(), p3(100.0), p3(100.0), unit3()).prop_map(|(n, p, x, spn)| Case::PlaneNormal { n, p, x, spn }),
+            2 => (unit3(), logu(0.0, 7.0), logu(-3.0, 3.0), p3(1.0), p3(1.0), p3(1.0)).prop_map(|(dir, far, size, a, b, c)| Case::PlaneFar { centre: [dir[0] * far * size, dir[1] * far * size, dir[2] * far * size], size, a, b, c }),
         ]
         .boxed()
     }
@@ -132,6 +135,7 @@ impl Property for C19 {
             Case::Basis2 { ang, len, origin } => basis2(*ang, *len, origin),
             Case::PlaneTriple { p, q, r, x } => plane_triple(p, q, r, x),
             Case::PlaneNormal { n, p, x, spn } => plane_normal(n, p, x, spn),
+            Case::PlaneFar { centre, size, a, b, c } => plane_far(centre, *size, a, b, c),
         }
     }
 }
@@ -496,6 +500,44 @@ fn plane_triple(p: &P3, q: &P3, r: &P3, x: &P3) -> Verdict {
         }
     }
     cx.nontrivial();
+    cx.pass()
+}
+
+/// Three-point planes far from the origin: the defining points must stay on the plane to within the rounding of their
+/// own coordinates (times the conditioning of the triangle), however small the triangle is compared with its distance
+/// from the origin.
+fn plane_far(centre: &P3, size: f64, a: &P3, b: &P3, c: &P3) -> Verdict {
+    let mut cx = Ctx::new();
+    cx.label("plane_far");
+    let o = pt3(centre);
+    let (p, q, r) = (o + v3(a) * size, o + v3(b) * size, o + v3(c) * size);
+    let (e1, e2) = (q - p, r - p);
+    let cr = e1.cross(&e2);
+    if e1.norm() < 1e-3 * size || e2.norm() < 1e-3 * size || cr.norm() < 1e-2 * e1.norm() * e2.norm() {
+        return Verdict::Discard("triple not in general position");
+    }
+    let cond = e1.norm() * e2.norm() / cr.norm();
+    let big = p.coords.norm().max(q.coords.norm()).max(r.coords.norm());
+    let pl = Plane3::from((&p, &q, &r));
+    ensure!(pl.normal.dot(&cr) > 0.0, "C19/plane_far/right_hand_rule", "normal {:?} opposes (q-p)x(r-p)", pl.normal);
+    // rounding of the coordinates (eps*big) enters the edge vectors, is amplified by the conditioning into the normal and
+    // multiplied by the edge length again: eps*big*cond, with a factor for the handful of operations involved
+    let tol = 64.0 * f64::EPSILON * big * cond + 1e-300;
+    let mut worst = 0.0f64;
+    for (i, pt) in [p, q, r].iter().enumerate() {
+        let d = pl.signed_distance_to_point(pt);
+        worst = worst.max(d.abs() / tol);
+        ensure!(d.abs() <= tol, "C19/plane_far/contains_defining_point", "defining point {i} of a triangle of size {size:e} at {big:e} from the origin is {d:e} from the plane (allowed {tol:e})");
+        let pr = pl.project_point(pt);
+        ensure!((pr - pt).norm() <= tol, "C19/plane_far/projection_moves_defining_point", "projecting defining point {i} moves it by {:e} (allowed {tol:e})", (pr - pt).norm());
+    }
+    if std::env::var("VERIF_DEBUG").is_ok() {
+        eprintln!("C19 plane_far worst/tol = {worst:e}");
+    }
+    cx.label_if(big > 1e4 * size, "plane_far_1e4_sizes_away");
+    if big > 100.0 * size {
+        cx.nontrivial();
+    }
     cx.pass()
 }
 
